@@ -186,13 +186,13 @@ Definition parse_family (e : edit_actor) (m : meta) : res edit_actor :=
         | Ok None => Ok (set_t false e (all_t (ea_live e) true))
         end
       else parse_sol_nested e mv false false
-  | Ok (Some _) => parse_sol_nested e m false false      (* the whole `edit(..)` meta is handed on *)
+  | Ok (Some l) => foldM (sol_step false false) e l      (* def | imp[(..)] | trt[(..)] | file(..), any number of them *)
   end.
 
 Definition edit_parse (m : meta) : res edit_actor := parse default_ea m.
 Definition edit_parse_family (m : meta) : res edit_actor := parse_family default_ea m.
-(* what the crate does for `edit` inside a family member `actor(..)`: the member prototype still has mac == Family *)
-Definition edit_parse_member (m : meta) : res edit_actor := parse_family default_ea m.
+(* `edit` inside a family member `actor(..)`: parse_nested_actor hands it to EditActor::parse, as for a plain actor *)
+Definition edit_parse_member (m : meta) : res edit_actor := parse default_ea m.
 
 (* ------------------------------------------------------------------------------------------ *)
 (* 3. the documented grammar                                                                    *)
